@@ -718,6 +718,34 @@ theorem getNoisyAll_frame (cfg : PCfg) (hg : cfg.Good) : ∀ (dns : List Bool) (
     obtain ⟨i1, i2, i3⟩ := ih (getNoisy cfg st dn).1 hwf1
     exact ⟨hs.frame.trans i1, by rw [← hh]; exact i2, by rw [← hn]; exact i3⟩
 
+/-! ## The list of noise objects -/
+
+theorem getNoisyT_spec (cfg : PCfg) (hg : cfg.Good) (lcopy : Bool) (relax : Option (List Int)) (st : PState)
+    (hwf : ∀ r ∈ st.held, WFP st.w r) (dn : Bool) :
+    CallSpec st.w (valsOf st.w st.held) (usedNoise st.noise relax) dn st.rng
+      ⟨(getNoisyT cfg lcopy relax st dn).1.w, (getNoisyT cfg lcopy relax st dn).1.rng⟩
+      (getNoisyT cfg lcopy relax st dn).2 ∧
+    (getNoisyT cfg lcopy relax st dn).1.held = st.held ∧
+    (getNoisyT cfg lcopy relax st dn).1.noise = if lcopy then st.noise else usedNoise st.noise relax := by
+  have h := (getNoisy_spec cfg hg { st with noise := usedNoise st.noise relax } hwf dn).1
+  exact ⟨h, rfl, rfl⟩
+
+theorem getNoisyTAll_frame (cfg : PCfg) (hg : cfg.Good) (relax : Option (List Int)) : ∀ (dns : List Bool) (st : PState),
+    (∀ r ∈ st.held, WFP st.w r) →
+    Frame st.w (getNoisyTAll cfg true relax st dns).w ∧ (getNoisyTAll cfg true relax st dns).held = st.held ∧
+    (getNoisyTAll cfg true relax st dns).noise = st.noise := by
+  intro dns
+  induction dns with
+  | nil => intro st _; exact ⟨Frame.refl _, rfl, rfl⟩
+  | cons dn dns ih =>
+    intro st hwf
+    obtain ⟨hs, hh, hn⟩ := getNoisyT_spec cfg hg true relax st hwf dn
+    simp only [↓reduceIte] at hn
+    have hwf1 : ∀ r ∈ (getNoisyT cfg true relax st dn).1.held, WFP (getNoisyT cfg true relax st dn).1.w r := by
+      rw [hh]; exact fun r hr => hs.frame.wfp (hwf r hr)
+    obtain ⟨i1, i2, i3⟩ := ih (getNoisyT cfg true relax st dn).1 hwf1
+    exact ⟨hs.frame.trans i1, by rw [← hh]; exact i2, by rw [← hn]; exact i3⟩
+
 /-! ## Deterministic noise objects never read the generator -/
 
 def Act.noRand : Act → Bool
